@@ -1306,6 +1306,410 @@ fn default_platform_ids(r: &mut Report, seed: u64, rounds: u64) {
     }
 }
 
+// ---------------------------------------------------------------------------
+// `setup:` fns that install the incoming trace context
+// ---------------------------------------------------------------------------
+//
+// `#[emit::span(rt, setup: f, ..)]` is documented as "invoke the expression before creating the span"; the value it
+// returns is dropped when the span fn returns. The realistic use: `f` installs the caller's trace context - a guard
+// that enters a `Frame` carrying the incoming `trace_id` / `span_id` (typed or as hex text, `Frame::push(ctxt, props)`
+// + `into_parts` + `Ctxt::enter`; `Traceparent::push()` on the trace-context runtimes) and exits it on drop. The
+// statement then says: the span carries "the incoming ids placed in the context", i.e. it is a CHILD of the incoming
+// span (trace id = incoming, parent = incoming span id, a fresh span id of its own), events in the body carry the
+// span's own id, spans nested in the body are children of THIS span, and once the fn has returned the ambient ids are
+// what they were before. Directed, seeded cases: sync / async x plain / `guard:` / result-aware ok / err; nested two
+// deep (the first nested span optionally installs a SECOND incoming context through its own `setup:`); optionally all
+// inside an enclosing span; controls: a `setup:` fn that installs nothing, and span fns without `setup:`.
+// The sink is `Routed`'s fallback recorder (the section runs on the main thread, where no tree is running).
+
+#[cfg(not(miri))]
+mod setup_param {
+    use super::*;
+    use emit::{Ctxt, Frame, SpanCtxt, SpanId, TraceId};
+    use emit_traceparent::{TraceFlags, Traceparent};
+    use std::cell::RefCell;
+
+    #[derive(Clone, Copy, Debug)]
+    pub struct Inc {
+        pub trace: u128,
+        pub span: u64,
+        /// 0 typed, 1 hex text, 2 HEX text, 3 `Traceparent::push()`
+        pub form: u8,
+    }
+
+    pub struct SpCx {
+        pub inc: Option<Inc>,
+        pub inc2: Option<Inc>,
+        pub fail: bool,
+        pub yields: bool,
+        pub log: RefCell<Vec<(&'static str, Ids)>>,
+    }
+
+    /// A frame that was pushed AND entered; exited and closed on drop.
+    pub struct Entered<C: Ctxt>(C, Option<C::Frame>);
+
+    impl<C: Ctxt> Drop for Entered<C> {
+        fn drop(&mut self) {
+            if let Some(mut f) = self.1.take() {
+                self.0.exit(&mut f);
+                self.0.close(f);
+            }
+        }
+    }
+
+    fn enter<C: Ctxt>(frame: Frame<C>) -> Entered<C> {
+        let (ctxt, mut f) = frame.into_parts();
+        ctxt.enter(&mut f);
+        Entered(ctxt, Some(f))
+    }
+
+    /// What the `setup:` fns return (at most one of the two is there).
+    pub type Installed<X> = (Option<Entered<&'static <X as Env>::C>>, Option<Entered<emit_traceparent::TraceparentCtxt>>);
+
+    pub fn install<X: Env>(inc: Option<&Inc>) -> Installed<X> {
+        let Some(inc) = inc else { return (None, None) };
+        let ctxt = X::rt().ctxt();
+        match inc.form {
+            0 => {
+                let trace_id = TraceId::from_u128(inc.trace).expect("non-zero");
+                let span_id = SpanId::from_u64(inc.span).expect("non-zero");
+                (Some(enter(Frame::push(ctxt, emit::props! { trace_id, span_id }))), None)
+            }
+            1 | 2 => {
+                let (t, s) = if inc.form == 1 { (format!("{:032x}", inc.trace), format!("{:016x}", inc.span)) } else { (format!("{:032X}", inc.trace), format!("{:016X}", inc.span)) };
+                let (trace_id, span_id): (&str, &str) = (&t, &s);
+                (Some(enter(Frame::push(ctxt, emit::props! { trace_id, span_id }))), None)
+            }
+            _ => {
+                let tp = Traceparent::new(TraceId::from_u128(inc.trace), SpanId::from_u64(inc.span), TraceFlags::SAMPLED);
+                (None, Some(enter(tp.push())))
+            }
+        }
+    }
+
+    fn read<X: Env>(cx: &SpCx, at: &'static str) {
+        let ids = Ids::of(&SpanCtxt::current(X::rt().ctxt()));
+        cx.log.borrow_mut().push((at, ids));
+    }
+
+    // --- nested spans -------------------------------------------------------------------------------------
+
+    #[emit::span(rt: *X::rt(), "sp inner2")]
+    fn inner2<X: Env>(cx: &SpCx) {
+        read::<X>(cx, "inner2:body");
+        emit::info!(rt: *X::rt(), "sp inner2-evt");
+    }
+
+    #[emit::span(rt: *X::rt(), "sp inner2")]
+    async fn inner2_async<X: Env>(cx: &SpCx) {
+        read::<X>(cx, "inner2:body");
+        emit::info!(rt: *X::rt(), "sp inner2-evt");
+    }
+
+    #[emit::span(rt: *X::rt(), setup: (|| install::<X>(cx.inc2.as_ref())), "sp inner1")]
+    fn inner1<X: Env>(cx: &SpCx) {
+        read::<X>(cx, "inner1:body");
+        emit::info!(rt: *X::rt(), "sp inner1-evt");
+        inner2::<X>(cx);
+        read::<X>(cx, "inner1:after-inner2");
+    }
+
+    #[emit::span(rt: *X::rt(), setup: (|| install::<X>(cx.inc2.as_ref())), "sp inner1")]
+    async fn inner1_async<X: Env>(cx: &SpCx) {
+        read::<X>(cx, "inner1:body");
+        emit::info!(rt: *X::rt(), "sp inner1-evt");
+        // a guard returned by `setup` stays entered across awaits: no suspension while the nested one is alive
+        if cx.yields && cx.inc2.is_none() {
+            YieldNow::new().await;
+        }
+        inner2_async::<X>(cx).await;
+        read::<X>(cx, "inner1:after-inner2");
+    }
+
+    fn body<X: Env>(cx: &SpCx) {
+        read::<X>(cx, "outer:body");
+        emit::info!(rt: *X::rt(), "sp outer-evt");
+        inner1::<X>(cx);
+        read::<X>(cx, "outer:after-inner1");
+    }
+
+    async fn body_async<X: Env>(cx: &SpCx) {
+        read::<X>(cx, "outer:body");
+        emit::info!(rt: *X::rt(), "sp outer-evt");
+        if cx.yields {
+            YieldNow::new().await;
+        }
+        inner1_async::<X>(cx).await;
+        if cx.yields {
+            YieldNow::new().await;
+        }
+        read::<X>(cx, "outer:after-inner1");
+    }
+
+    // --- the span fns under observation -------------------------------------------------------------------
+
+    #[emit::span(rt: *X::rt(), setup: (|| install::<X>(cx.inc.as_ref())), "sp outer")]
+    fn outer_plain<X: Env>(cx: &SpCx) {
+        body::<X>(cx)
+    }
+
+    #[emit::span(rt: *X::rt(), setup: (|| install::<X>(cx.inc.as_ref())), guard: g, "sp outer")]
+    fn outer_guard<X: Env>(cx: &SpCx) {
+        body::<X>(cx);
+        g.complete();
+    }
+
+    #[emit::span(rt: *X::rt(), setup: (|| install::<X>(cx.inc.as_ref())), ok_lvl: emit::Level::Info, err_lvl: "warn", "sp outer")]
+    fn outer_result<X: Env>(cx: &SpCx) -> Result<(), NodeErr> {
+        body::<X>(cx);
+        if cx.fail {
+            return Err(NodeErr);
+        }
+        Ok(())
+    }
+
+    #[emit::span(rt: *X::rt(), "sp outer")]
+    fn outer_nosetup<X: Env>(cx: &SpCx) {
+        body::<X>(cx)
+    }
+
+    #[emit::span(rt: *X::rt(), setup: (|| install::<X>(cx.inc.as_ref())), "sp outer")]
+    async fn outer_plain_async<X: Env>(cx: &SpCx) {
+        body_async::<X>(cx).await
+    }
+
+    #[emit::span(rt: *X::rt(), setup: (|| install::<X>(cx.inc.as_ref())), guard: g, "sp outer")]
+    async fn outer_guard_async<X: Env>(cx: &SpCx) {
+        body_async::<X>(cx).await;
+        g.complete();
+    }
+
+    #[emit::span(rt: *X::rt(), setup: (|| install::<X>(cx.inc.as_ref())), ok_lvl: emit::Level::Info, err_lvl: "warn", "sp outer")]
+    async fn outer_result_async<X: Env>(cx: &SpCx) -> Result<(), NodeErr> {
+        body_async::<X>(cx).await;
+        if cx.fail {
+            Err(NodeErr)?;
+        }
+        Ok(())
+    }
+
+    #[emit::span(rt: *X::rt(), "sp outer")]
+    async fn outer_nosetup_async<X: Env>(cx: &SpCx) {
+        body_async::<X>(cx).await
+    }
+
+    #[emit::span(rt: *X::rt(), "sp encl")]
+    fn encl<X: Env>(cx: &SpCx, f: &dyn Fn()) {
+        read::<X>(cx, "encl:body");
+        f();
+        read::<X>(cx, "encl:after");
+    }
+
+    pub const FORMS: [&str; 10] = ["sync:plain", "sync:guard", "sync:result-ok", "sync:result-err", "sync:no-setup-param", "async:plain", "async:guard", "async:result-ok", "async:result-err", "async:no-setup-param"];
+
+    fn rand_inc(g: &mut Rng, form: u8) -> Inc {
+        // away from the counting rngs' ranges (top bits set), never zero
+        Inc { trace: (((g.next() as u128) << 64) | g.next() as u128) | (1u128 << 127), span: g.next() | (1u64 << 63), form }
+    }
+
+    fn parse(text: &Option<String>) -> Option<u128> {
+        text.as_deref().and_then(|t| u128::from_str_radix(t, 16).ok())
+    }
+
+    fn ids_of(s: &Seen) -> Ids {
+        Ids { trace: parse(&s.trace), parent: parse(&s.parent).map(|p| p as u64), span: parse(&s.span).map(|p| p as u64) }
+    }
+
+    /// `tp`: `X` is one of the trace-context runtimes.
+    pub fn case<X: Env>(r: &mut Report, seed: u64, k: u64, tp: bool) {
+        let mut g = Rng::stream(seed, &[4, 9, k]);
+        let form = (k % 10) as usize;
+        let has_param = form % 5 != 4;
+        let is_async = form >= 5;
+        let kind = if is_async { "async" } else { "sync" };
+        let n_forms = if tp { 4 } else { 3 };
+        // scenario: does the setup fn install something (control: nothing), does the first nested span, is there an enclosing span
+        let installs = has_param && !g.chance(1, 5);
+        let f1 = g.below(n_forms) as u8;
+        let inc = if installs { Some(rand_inc(&mut g, f1)) } else { None };
+        // on the trace-context runtimes ids given as plain props under an ACTIVE traceparent are taken for a child of it
+        // (C18's subject): a nested incoming context is installed through `Traceparent::push()` there
+        let f2 = if tp { 3 } else { g.below(3) as u8 };
+        let inc2 = if g.chance(1, 3) { Some(rand_inc(&mut g, f2)) } else { None };
+        let enclosed = !tp && g.chance(1, 3);
+        let cx = SpCx { inc, inc2, fail: form % 5 == 3, yields: g.bool(), log: RefCell::new(Vec::new()) };
+        let show_inc = |i: &Option<Inc>| i.map(|i| {
+            let how = ["typed", "hex", "HEX", "Traceparent::push"][i.form as usize];
+            json!({"trace": hex_trace(i.trace), "span": hex_span(i.span), "form": how})
+        });
+        let mut case = json!({"section": "setup-param", "env": X::NAME, "seed": seed, "k": k, "form": FORMS[form], "setup_installs": show_inc(&inc), "nested_setup_installs": show_inc(&inc2), "enclosed": enclosed, "yields": cx.yields});
+        r.eval();
+        r.observe("setup-param:cases", 1);
+        r.observe(&format!("setup-param:{}:{}", X::NAME, FORMS[form]), 1);
+        if inc.is_some() {
+            r.observe("setup-param:cases-whose-setup-fn-installs-incoming-ids", 1);
+        }
+
+        let _ = ORPHANS.take();
+        read::<X>(&cx, "before");
+        let run = || match form {
+            0 => outer_plain::<X>(&cx),
+            1 => outer_guard::<X>(&cx),
+            2 | 3 => {
+                let _ = outer_result::<X>(&cx);
+            }
+            4 => outer_nosetup::<X>(&cx),
+            5 => block_on(outer_plain_async::<X>(&cx)),
+            6 => block_on(outer_guard_async::<X>(&cx)),
+            7 | 8 => {
+                let _ = block_on(outer_result_async::<X>(&cx));
+            }
+            _ => block_on(outer_nosetup_async::<X>(&cx)),
+        };
+        if enclosed {
+            encl::<X>(&cx, &run);
+        } else {
+            run();
+        }
+        read::<X>(&cx, "after");
+        let evts: Vec<Seen> = ORPHANS.take().iter().map(seen).collect();
+        let log = cx.log.borrow().clone();
+        case["reads"] = json!(log.iter().map(|(at, ids)| json!([at, ids.show()])).collect::<Vec<_>>());
+        case["events"] = json!(evts.iter().map(|e| json!({"msg": e.raw.msg, "trace": e.trace, "span": e.span, "parent": e.parent})).collect::<Vec<_>>());
+
+        let mut found: Vec<(String, String)> = Vec::new();
+        let mut bad = |sig: &str, what: String| found.push((format!("C04:setup-param:{}:{}", sig, kind), what));
+        let at = |name: &str| -> Option<Ids> { log.iter().find(|(a, _)| *a == name).map(|(_, i)| *i) };
+        let one = |msg: &str| -> Option<&Seen> {
+            let got: Vec<&Seen> = evts.iter().filter(|e| e.raw.msg == msg).collect();
+            if got.len() == 1 { Some(got[0]) } else { None }
+        };
+        let mut complete = true;
+        for msg in ["sp outer", "sp inner1", "sp inner2", "sp outer-evt", "sp inner1-evt", "sp inner2-evt"] {
+            let n = evts.iter().filter(|e| e.raw.msg == msg).count();
+            if n != 1 {
+                bad("event-count", format!("`{}` was emitted {} time(s), expected once", msg, n));
+                complete = false;
+            }
+        }
+        if enclosed && evts.iter().filter(|e| e.raw.msg == "sp encl").count() != 1 {
+            bad("event-count", "the enclosing span did not complete once".into());
+            complete = false;
+        }
+        let expect_reads = 7 + if enclosed { 2 } else { 0 };
+        if log.len() != expect_reads {
+            bad("program-points", format!("{} of {} program points were reached", log.len(), expect_reads));
+            complete = false;
+        }
+        if complete {
+            let before = at("before").unwrap();
+            let base = if enclosed { at("encl:body").unwrap() } else { before };
+            let (o, i1, i2) = (ids_of(one("sp outer").unwrap()), ids_of(one("sp inner1").unwrap()), ids_of(one("sp inner2").unwrap()));
+            // (a) the span under observation is a child of what its setup fn installed (else of where it was called)
+            match (&inc, base.span) {
+                (Some(inc), _) => {
+                    if o.trace != Some(inc.trace) || o.parent != Some(inc.span) {
+                        bad("span-not-child-of-incoming", format!("the setup fn installed incoming ids {}/{} before the span was created, but the span is {} (trace/parent/span)", hex_trace(inc.trace), hex_span(inc.span), o.show()));
+                    }
+                }
+                (None, Some(_)) => {
+                    if o.trace != base.trace || o.parent != base.span {
+                        bad("control:span-not-child-of-enclosing", format!("nothing installed, enclosing span {}: the span is {}", base.show(), o.show()));
+                    }
+                }
+                (None, None) => {
+                    if o.trace.is_none() || o.parent.is_some() {
+                        bad("control:root-span-ids", format!("nothing installed, nothing enclosing: the span is {}", o.show()));
+                    }
+                }
+            }
+            if o.span.is_none() || o.span == Some(0) || o.span == inc.map(|i| i.span) || o.span == base.span {
+                bad("span-id-not-fresh", format!("the span's own id is {:?} (incoming {:?}, enclosing {:?})", o.span.map(hex_span), inc.map(|i| hex_span(i.span)), base.span.map(hex_span)));
+            }
+            // (b) inside the body the ambient ids are the span's
+            if at("outer:body") != Some(o) {
+                bad("ambient-in-body-is-not-the-span", format!("SpanCtxt::current at the start of the body is {}, the span event says {}", at("outer:body").unwrap().show(), o.show()));
+            }
+            // (c) events in the body carry the span's own id
+            let e = ids_of(one("sp outer-evt").unwrap());
+            if e.trace != o.trace || e.span != o.span {
+                bad("event-in-body-does-not-carry-the-span-id", format!("the event emitted in the body carries {}/{}, the span is {}", e.trace.map(hex_trace).unwrap_or_default(), e.span.map(hex_span).unwrap_or_default(), o.show()));
+            }
+            // (d) the first nested span: child of THIS span, or of what its own setup fn installed
+            match &inc2 {
+                Some(inc2) => {
+                    if i1.trace != Some(inc2.trace) || i1.parent != Some(inc2.span) {
+                        bad("nested:span-not-child-of-incoming", format!("the nested span's setup fn installed {}/{} but the nested span is {}", hex_trace(inc2.trace), hex_span(inc2.span), i1.show()));
+                    }
+                }
+                None => {
+                    if i1.trace != o.trace || i1.parent != o.span {
+                        bad("nested-span-not-child-of-this-span", format!("the span is {}, the span nested in its body is {} (incoming {:?})", o.show(), i1.show(), inc.map(|i| hex_span(i.span))));
+                    }
+                }
+            }
+            if at("inner1:body") != Some(i1) || at("inner1:after-inner2") != Some(i1) {
+                bad("nested:ambient-in-body-is-not-the-span", format!("inside the nested span SpanCtxt::current is {} / {} after its child, its event says {}", at("inner1:body").unwrap().show(), at("inner1:after-inner2").unwrap().show(), i1.show()));
+            }
+            let e = ids_of(one("sp inner1-evt").unwrap());
+            if e.trace != i1.trace || e.span != i1.span {
+                bad("nested:event-in-body-does-not-carry-the-span-id", format!("the event in the nested span carries {:?}/{:?}, that span is {}", e.trace.map(hex_trace), e.span.map(hex_span), i1.show()));
+            }
+            // (e) two deep
+            if i2.trace != i1.trace || i2.parent != i1.span || at("inner2:body") != Some(i2) {
+                bad("nested:second-level-not-child-of-first", format!("first nested span {}, the one nested in it {} (read in its body: {})", i1.show(), i2.show(), at("inner2:body").unwrap().show()));
+            }
+            let e = ids_of(one("sp inner2-evt").unwrap());
+            if e.trace != i2.trace || e.span != i2.span {
+                bad("nested:event-in-body-does-not-carry-the-span-id", format!("the event in the second nested span carries {:?}/{:?}, that span is {}", e.trace.map(hex_trace), e.span.map(hex_span), i2.show()));
+            }
+            // ids pairwise distinct
+            let mut ids: Vec<Option<u64>> = vec![o.span, i1.span, i2.span, base.span, inc.map(|i| i.span), inc2.map(|i| i.span)];
+            ids.retain(|i| i.is_some());
+            let n = ids.len();
+            ids.sort();
+            ids.dedup();
+            if ids.len() != n {
+                bad("span-ids-not-distinct", format!("span ids repeat among the span {}, its nested spans {} / {}, the incoming and the enclosing ids", o.show(), i1.show(), i2.show()));
+            }
+            // (f) reversion
+            if at("outer:after-inner1") != Some(o) {
+                bad("ambient-not-restored-after-nested-span", format!("after the nested span returned SpanCtxt::current is {}, the span is {}", at("outer:after-inner1").unwrap().show(), o.show()));
+            }
+            if enclosed && at("encl:after") != Some(base) {
+                bad("ambient-after-return-differs", format!("inside the enclosing span SpanCtxt::current was {} before the call and is {} after it", base.show(), at("encl:after").unwrap().show()));
+            }
+            if at("after") != Some(before) {
+                bad("ambient-after-return-differs", format!("SpanCtxt::current was {} before the call and is {} after it returned", before.show(), at("after").unwrap().show()));
+            }
+            if inc.is_some() {
+                r.nontrivial(&("setup-param", X::NAME, form, inc.map(|i| i.form), inc2.map(|i| i.form), enclosed));
+            }
+        }
+        // whatever a broken tree leaves entered on this thread must not leak into the next case: report, never repair silently
+        found.sort();
+        found.dedup_by(|a, b| a.0 == b.0);
+        let sample = r.wants_sample() && k % 97 == 0;
+        for (sig, what) in found {
+            r.violation(&sig, &format!("{} / {}: {}", X::NAME, FORMS[form], what), case.clone());
+        }
+        if sample {
+            r.sample(|| case);
+        }
+    }
+
+    pub fn run(r: &mut Report, seed: u64, n: u64) {
+        for k in 0..n {
+            match (k / 10) % 4 {
+                0 => case::<EnvGeneric>(r, seed, k, false),
+                1 => case::<EnvAmbient>(r, seed, k, false),
+                2 => case::<EnvTraceparent>(r, seed, k, true),
+                _ => case::<EnvTraceparentSlot>(r, seed, k, true),
+            }
+        }
+    }
+}
+
 fn main() {
     let args = Args::parse();
     let mut r = Report::new(
@@ -1364,6 +1768,10 @@ fn main() {
             json!({"first": orphans[0].to_json()}),
         );
     }
+    // span fns whose `setup:` fn installs the incoming trace context (main thread, `Routed`'s fallback recorder as sink)
+    #[cfg(not(miri))]
+    setup_param::run(&mut r, seed, args.n(2_000, 40_000));
+
     {
         let s = SHAPES.lock().unwrap();
         r.set(
